@@ -270,10 +270,11 @@ pub fn run(tier: Tier, seed: u64) -> i32 {
         assumptions: vec![
             "the oracle uses only the subject's own items and the driver's log; the reference interpreter is used to predict which kind of call comes next (to build the script) and whether an error item precedes or follows its call".into(),
         ],
-        required_witnesses: vec!["constructor_call_checked", "checked_row_output_reading_call", "mid_clock_row_write_only_call", "mid_clock_row_through_default_write_input", "expression_error_item_without_call", "end_of_iteration", "next_after_end", "run_of_more_than_900_calls", "one_loaded_test_used_twice_with_different_drivers", "signal_list_without_outputs"],
+        required_witnesses: vec!["constructor_call_checked", "checked_row_output_reading_call", "mid_clock_row_write_only_call", "mid_clock_row_through_default_write_input", "expression_error_item_without_call", "end_of_iteration", "next_after_end", "run_of_more_than_900_calls", "one_loaded_test_used_twice_with_different_drivers", "iterator_advanced_with_nth", "signal_list_without_outputs"],
         exhaustive_note: "every reachable state up to the depth bound for every case".into(),
         e1: true,
     };
     st.merge(crate::props::c13::reuse_part(&deadline));
+    st.merge(crate::props::c13::api_use_part(&deadline));
     finish(meta, st, started)
 }
